@@ -146,6 +146,10 @@ QCUTOFF = np.finfo(np.float64).eps * 10
 #: the type used for charges
 QTYPE = charges.QTYPE
 
+#: verification hook, off unless the environment variable TENPY_VERIF_SYMBOLIC is set:
+#: lets :meth:`Array.conj` complex conjugate the entries of ``dtype=object`` arrays.
+_VERIF_SYMBOLIC = bool(__import__('os').environ.get('TENPY_VERIF_SYMBOLIC'))
+
 # ##################################
 # Array class
 # ##################################
@@ -2215,6 +2219,8 @@ class Array:
             Whether to apply changes to `self`, or to return a *deep* copy.
 
         """
+        if _VERIF_SYMBOLIC and complex_conj and self.dtype.kind == 'O':
+            return self.conj(complex_conj=False, inplace=inplace).iunary_blockwise(np.conj)
         if complex_conj and self.dtype.kind == 'c':
             if inplace:
                 res = self.iunary_blockwise(np.conj)
